@@ -22,7 +22,9 @@ import (
 	"fmt"
 	"net"
 	"os"
+	"sort"
 	"strconv"
+	"strings"
 	"sync/atomic"
 	"time"
 
@@ -37,6 +39,7 @@ import (
 	"github.com/gofiber/fiber/v2"
 	"github.com/rs/zerolog"
 	"github.com/valyala/fasthttp"
+	"github.com/valyala/fasthttp/fasthttputil"
 )
 
 const (
@@ -48,6 +51,9 @@ const (
 )
 
 var clk atomic.Int64 // unix nanos of the virtual clock
+
+// padBytes: see call() in buildSites
+var padBytes int
 
 func setClock(ns int64) { clk.Store(ns) }
 func nowSec() int64     { return clk.Load() / int64(time.Second) }
@@ -196,17 +202,39 @@ func buildSites(at *int64) []*site {
 			return ack.Code != protocol.ForwardCodeAuth, nil
 		}})
 
-	call := func(h fasthttp.RequestHandler, path string, hdr map[string]string) int {
-		var req fasthttp.Request
+	// HTTP sites are driven the way a peer reaches them: ONE long-lived fiber app served on an
+	// in-memory listener, ONE keep-alive client connection, so fasthttp re-uses the same pooled
+	// request context (and its header buffers) for every request -- handler code that retains
+	// fiber's zero-copy header strings sees them overwritten by later traffic. Requests are
+	// synchronous round trips (no sleeps). padBytes > 0 prepends unsigned headers, which shifts
+	// the header slots: a captured request replayed with a different header layout.
+	serve := func(app *fiber.App) *fasthttp.HostClient {
+		ln := fasthttputil.NewInmemoryListener()
+		go func() { _ = app.Listener(ln) }()
+		return &fasthttp.HostClient{Addr: "verif", MaxConns: 1, Dial: func(string) (net.Conn, error) { return ln.Dial() }}
+	}
+	call := func(c *fasthttp.HostClient, path string, hdr map[string]string) int {
+		req, resp := fasthttp.AcquireRequest(), fasthttp.AcquireResponse()
+		defer fasthttp.ReleaseRequest(req)
+		defer fasthttp.ReleaseResponse(resp)
 		req.Header.SetMethod("POST")
-		req.SetRequestURI(path)
-		for k, v := range hdr {
-			req.Header.Set(k, v)
+		req.SetRequestURI("http://verif" + path)
+		if padBytes > 0 {
+			req.Header.Set("Accept", "*/*")
+			req.Header.Set("X-Verif-Pad", strings.Repeat("p", padBytes))
 		}
-		var fctx fasthttp.RequestCtx
-		fctx.Init(&req, nil, nil)
-		h(&fctx)
-		return fctx.Response.StatusCode()
+		keys := make([]string, 0, len(hdr))
+		for k := range hdr {
+			keys = append(keys, k)
+		}
+		sort.Strings(keys)
+		for _, k := range keys {
+			req.Header.Set(k, hdr[k])
+		}
+		if err := c.Do(req, resp); err != nil {
+			return -1
+		}
+		return resp.StatusCode()
 	}
 
 	// ---- cache invalidate: constructor arguments as written in cmd/arc/main.go
@@ -217,7 +245,7 @@ func buildSites(at *int64) []*site {
 	ci := api.NewCacheInvalidateHandler(secret, clusterName, localID, ciCache, ciTol.D, func() { invalidations++ }, nop)
 	ciApp := fiber.New(fiber.Config{DisableStartupMessage: true})
 	ci.Register(ciApp)
-	ciH := ciApp.Handler()
+	ciH := serve(ciApp)
 	sites = append(sites, &site{Name: "cache-invalidate", TolWhere: ciTol.Where, TolText: ciTol.Text, TolNs: int64(ciTol.D),
 		TtlWhere: ciTTL.Where, TtlText: ciTTL.Text, cache: ciCache,
 		deliver: func(sender, nonce string, ts int64) (bool, error) {
@@ -250,7 +278,7 @@ func buildSites(at *int64) []*site {
 	}
 	esApp := fiber.New(fiber.Config{DisableStartupMessage: true})
 	es.RegisterRoutes(esApp)
-	esH := esApp.Handler()
+	esH := serve(esApp)
 	const otherHub = "some-other-hub"
 	esVerdict := func(st int) (bool, error) {
 		switch st {
@@ -319,6 +347,7 @@ type event struct {
 	K   int   `json:"k"` // 0 = the message, 1 = unrelated message
 	T   int64 `json:"t"` // half seconds from the scenario epoch
 	Acc bool  `json:"acc"`
+	N   int   `json:"n"` // K=1: size of the burst of unrelated messages
 }
 type scenario struct {
 	Ts int64   `json:"ts"`
@@ -342,6 +371,7 @@ type result struct {
 	Violations map[string]*finding `json:"violations"`
 	Drift      map[string]*finding `json:"drift"`
 	Samples    []map[string]any    `json:"samples"`
+	Truncated  map[string]int      `json:"truncated,omitempty"` // site -> schedules replayed before the replay was cut short
 	Infra      string              `json:"infra,omitempty"`
 }
 
@@ -407,6 +437,14 @@ func main() {
 	}
 }
 
+func siteViolations(res *result, site string) int {
+	n := 0
+	for _, f := range res.Violations {
+		n += f.Sites[site]
+	}
+	return n
+}
+
 func record(m map[string]*finding, sig, siteName string, w map[string]any) {
 	f := m[sig]
 	if f == nil {
@@ -447,15 +485,32 @@ func replaySite(s *site, scs []scenario, at *int64, res *result) string {
 		accepts := 0
 		var firstAcc int64 = -1
 		obs := make([]bool, len(sc.Ev))
-		others := 0
+		others, deliveries := 0, 0
 		for j, e := range sc.Ev {
 			setClock(epoch + e.T*half)
 			var got bool
 			if e.K == 0 {
+				// the original goes out bare, every replay with a different (unsigned) header layout
+				padBytes = 5 * deliveries
+				deliveries++
 				got, err = s.deliver(sender, nonce, ts)
+				padBytes = 0
 			} else {
-				others++
-				got, err = s.deliver("peer-2", fmt.Sprintf("o%d-%d", i, others), nowSec())
+				// a burst of unrelated authentic traffic from other peers through the same transport,
+				// with varying identities and header lengths
+				got = true
+				n := e.N
+				if n < 1 {
+					n = 1
+				}
+				for b := 0; b < n && err == nil; b++ {
+					others++
+					padBytes = (others % 3) * 9
+					var g bool
+					g, err = s.deliver(fmt.Sprintf("peer-%d", 2+others%4), fmt.Sprintf("o%d-%d-%s", i, others, strings.Repeat("x", others%5)), nowSec())
+					got = got && g
+				}
+				padBytes = 0
 			}
 			if err != nil {
 				return fmt.Sprintf("site %s scenario %d event %d: %v", s.Name, i, j, err)
@@ -505,6 +560,15 @@ func replaySite(s *site, scs []scenario, at *int64, res *result) string {
 			}
 			res.Classes["replay-accepted"]++
 			record(res.Violations, sig, s.Name, w())
+		}
+		// the verdict for this site is established; a broken cache can also grow without bound
+		// (entries that can no longer be evicted), which would make the remaining replay quadratic
+		if siteViolations(res, s.Name) >= 300 {
+			if res.Truncated == nil {
+				res.Truncated = map[string]int{}
+			}
+			res.Truncated[s.Name] = i + 1
+			break
 		}
 		if len(res.Samples) < 4 && i%997 == 3 {
 			res.Samples = append(res.Samples, map[string]any{"site": s.Name, "ts_rel_s": sc.Ts, "events": sc.Ev, "observed": obs})
